@@ -5,15 +5,16 @@
 EXTENDS Node, Json
 CONSTANTS UBlocks,      \* index -> block record (Ledger format)
           UTxs,         \* index -> transaction record
-          GenesisB, Now, MaxSteps, EmitHist
+          GenesisB, Now, MaxSteps, EmitHist,
+          Irts          \* in_response_to values of delivered blocks: {0} = broadcasts only; {0, 1} adds answers to requests (bulk download)
 VARIABLES hist
 mv == << blocks, order, utxo, byHeight, tips, head, lastValid, pool, chainT, locT, outT, inT, buffer, txnOpen,
          outbox, active, miner, hist >>
 Init == NInit(GenesisB, Peers) /\ hist = << >>
 Next == /\ Len(hist) < MaxSteps
-        /\ \/ \E p \in Peers : \E i \in DOMAIN UBlocks :
-                 /\ DeliverBlock(p, UBlocks[i], 0, Now)
-                 /\ hist' = Append(hist, [op |-> "block", peer |-> p, i |-> i])
+        /\ \/ \E p \in Peers : \E i \in DOMAIN UBlocks : \E irt \in Irts :
+                 /\ DeliverBlock(p, UBlocks[i], irt, Now)
+                 /\ hist' = Append(hist, [op |-> "block", peer |-> p, i |-> i, irt |-> irt])
            \/ \E p \in Peers : \E j \in DOMAIN UTxs :
                  /\ DeliverTx(p, UTxs[j])
                  /\ hist' = Append(hist, [op |-> "tx", peer |-> p, i |-> j])
